@@ -56,9 +56,10 @@ def normalised_report(root, excludes, walk_seed=None):
     from codelimit.common.report.Report import Report
     from codelimit.common.report.ReportWriter import ReportWriter
 
-    Configuration.exclude = list(excludes)
-    Configuration.verbose = False
-    Configuration.repository = None
+    from vf.harness import cli
+
+    cli.reset_config()
+    cli.add_excludes(list(excludes))
     Configuration.load(Path(root))
     real_walk = os.walk
     if walk_seed is not None:
@@ -96,7 +97,8 @@ def main():
 
         out = {"digests": [isolated(a, r) for a, r in req["items"]]}
     else:
-        reports = [normalised_report(req["t"], req.get("excludes", []))]
+        # "permute_first": the very first scan of this fresh process already sees the permuted directory order
+        reports = [normalised_report(req["t"], req.get("excludes", []), req.get("walk_seed", 1) if req.get("permute_first") else None)]
         if req.get("u"):
             try:
                 normalised_report(req["u"], req.get("u_excludes", []))
